@@ -47,3 +47,30 @@ package main
 //@   loop 2: invariant rerr == nil && ferr == nil
 //@   calls f#1: requires !(last.ModifiedAt == $0.ModifiedAt && last.UUID >= $0.UUID)
 //@   ensures result == nil ==> callCount >= checkCount
+
+// ------------------------------------------------------- C05: safe trashing
+// trySlot (closure of balanceBlock): a slot whose mount or backend device has
+// already been allocated a replica in this class is skipped entirely - it
+// counts neither as wanted nor (again) as protected; `want` is only ever set,
+// never cleared, and nothing else of a slot changes.
+//@ func Balancer.balanceBlock$2 property C05 safety -bounds
+//@   requires 0 <= i && i < len(slots)
+//@   ensures old(wantMnt[slots[i].mnt]) || old(wantDev[slots[i].mnt.DeviceID]) ==> result == false && replProt == old(replProt) && replWant == old(replWant)
+//@   ensures old(slots[i].want) ==> slots[i].want
+//@   ensures slots[i].mnt == old(slots[i].mnt) && slots[i].repl == old(slots[i].repl)
+//@   ensures replProt >= old(replProt) && replWant >= old(replWant)
+
+// balanceBlock: the emission rules.  A trash request is generated only for a
+// replica that is not wanted and older than the signature TTL horizon
+// (MinMtime), and names the mount that holds it with its stored mtime; a pull
+// request only for a wanted slot without replica on a writable mount when some
+// replica exists, from the first known replica's server; a wanted slot with no
+// replica anywhere makes the block "lost".  "Under-replicated" is sticky over
+// the storage classes (once any class is short, nothing is trashed).
+//@ func Balancer.balanceBlock property C05 safety -bounds
+//@   ghost u0 bool = false
+//@   at assign desired#1: set u0 = underreplicated
+//@   at loop 6 back: assert u0 ==> underreplicated
+//@   calls KeepService.AddTrash#1: requires !slot.want && slot.repl != nil && slot.repl.Mtime < bal.MinMtime && $0.SizedDigest == blkid && $0.Mtime == slot.repl.Mtime && $0.From == slot.mnt
+//@   calls KeepService.AddPull#1: requires slot.repl == nil && slot.want && !slot.mnt.ReadOnly && len(blk.Replicas) > 0 && $0.SizedDigest == blkid && $0.From == blk.Replicas[0].KeepMount.KeepService && $0.To == slot.mnt
+//@   calls keepclient.NewRootSorter#1: requires $0 == bal.serviceRoots && $1 == string(blkid)[0:32]
